@@ -181,6 +181,7 @@ def run(tape, scenario, want_c11=False):
     install_cycle_hook(bus)
 
     started = []
+    late_frames = set()
     cycles_of = {}
     expected_out = {}     # tx payload -> {terminal: bytes}
     resp_cycle = {}
@@ -191,6 +192,8 @@ def run(tape, scenario, want_c11=False):
         out = orig_ring(no, frame)
         resp_cycle[bytes(out[14:])] = cyc
         exp = expected_out.get(bytes(frame[14:]))
+        if no in late_frames:
+            exp = None       # (a frame of a stopped run that reaches the terminals late)
         if exp is not None:
             for t, want in exp.items():
                 got = sims[t].outputs()[:len(want)]
@@ -352,6 +355,20 @@ def run(tape, scenario, want_c11=False):
             sg = SyncGroup(ec, make_devices(gr))
             size, n = predicted(gr)
             must_overflow = size > 1500 or n > 15
+            mapped = sorted((stations[k], k) for k in gr["members"]
+                            if specs[k]["use_fmmu"] and not specs[k]["aero"])
+            silent = None
+            if len(mapped) >= 2 and gi + 1 < len(groups) and not must_overflow \
+                    and tape.chance("c18/terminal-silent-while-mapped", 12):
+                # a terminal does not answer while the group configures its FMMUs (after
+                # an earlier terminal of the group was mapped): the start fails; the groups
+                # started afterwards are not to notice
+                silent = mapped[1 + tape.draw("c18/silent-which", len(mapped) - 1)][1]
+                for _ in range(200):      # (the groups started before are through their set-up)
+                    if all(cycles_of.get(g, 0) >= 1 or s_.task.done() for g, s_, _ in started):
+                        break
+                    await asyncio.sleep(1e-3)
+                sims[silent].skip_datagram = lambda d: d.cmd == 5 and 0x600 <= d.ado < 0x700
             try:
                 sg.start()
             except OverflowError:
@@ -368,6 +385,17 @@ def run(tape, scenario, want_c11=False):
                     continue
                 viol("group-start-raised", f"group {gi}: {type(e).__name__}: {e}",
                      exception=type(e).__name__)
+                continue
+            if silent is not None:
+                await asyncio.wait([sg.task], timeout=0.05)
+                sims[silent].skip_datagram = lambda d: False
+                if sg.task.done():
+                    world.count("c18/group-start-failed-at-a-silent-terminal")
+                    if not sg.task.cancelled():
+                        sg.task.exception()
+                    continue
+                sg.task.cancel()
+                await asyncio.wait([sg.task], timeout=0.5)
                 continue
             if must_overflow:
                 viol("oversized-group-started",
@@ -417,6 +445,27 @@ def run(tape, scenario, want_c11=False):
                 resize(k, "in", keep)
             if own:
                 k = tape.pick("c18/resized-terminal", own)
+                if not sg.task.done() and tape.chance("c18/frame-still-under-way-at-restart", 50):
+                    # one cyclic frame of the old run is still on the wire when the group
+                    # is stopped, and comes back after the group was started again
+                    held = []
+                    old_index = sg.packet_index
+
+                    def hold_one(no, frame):
+                        if not held and len(frame) > 22 and \
+                                struct.unpack_from("<I", frame, 18)[0] == old_index:
+                            held.append(no)
+                            late_frames.add(no)
+                            return 0.004 + 0.004 * tape.draw("c18/late-frame", 4)
+                        return None
+                    bus.delay_for = hold_one
+                    for _ in range(60):
+                        if held:
+                            break
+                        await asyncio.sleep(0.0005)
+                    bus.delay_for = None
+                    if held:
+                        world.count("c18/old-frame-comes-back-after-the-restart")
                 sg.task.cancel()
                 await asyncio.wait([sg.task], timeout=1.0)
                 for what in ("in", "out"):
